@@ -21,11 +21,13 @@ fn scenarios(thorough: bool) -> Vec<Scenario> {
     Scenario { plan: "1/3", what: "two threads, the decision that invokes the decision service as a function, different inputs", bound: "2" },
     Scenario { plan: "0/2", what: "two threads, the decision over table, regular expression and temporal decisions, different inputs", bound: "2" },
     Scenario { plan: "0/1", what: "two threads, different invocables", bound: "2" },
+    Scenario { plan: "0,0/2", what: "two threads, one repeating its own call while the other evaluates the same decision with another input (what a call site keeps between a thread's own calls)", bound: "2" },
   ];
   if thorough {
-    for s in v.iter_mut() {
+    for s in v.iter_mut().take(3) {
       s.bound = "3";
     }
+    v.push(Scenario { plan: "3,3/1", what: "two threads, one repeating the service-invoking decision while the other evaluates it with another input", bound: "2" });
     v.push(Scenario { plan: "1,0/3,2", what: "two threads, two calls each, same invocables in the same order", bound: "2" });
     v.push(Scenario { plan: "1,2/4,3", what: "two threads, two calls each, different invocables crossing", bound: "2" });
     v.push(Scenario { plan: "1/3/5", what: "three threads, the service-invoking decision", bound: "2" });
